@@ -1,13 +1,13 @@
 (* RefcountProofs.v -- proofs about Refcount.v (property C17).
 
    Main results
-     close_machine_ok     ADFI_close_file (variant FixA) from a state satisfying the reference-count invariant with one
+     close_machine_ok     ADFI_close_file (variant Cur) from a state satisfying the reference-count invariant with one
                           reference to drop returns NO_ERROR and re-establishes the invariant without that reference,
                           whatever the link graph (whenever it does not run out of fuel)
-     step_inv             every cgio-level operation of variant FixA preserves the invariant
+     step_inv             every cgio-level operation of variant Cur preserves the invariant
      balanced_fixed       any session, acyclic link graph, every handle closed  ==>  nothing is held
      failing_open_ledger  a failing open leaves the ledger as it was (both variants)
-     refuted_*            witnesses for the code as it is (variant Faithful)
+     refuted_*            witnesses for the code as it is (variant Old)
      mll_*                the MLL table
 *)
 From Coq Require Import Arith List Bool Lia.
@@ -295,7 +295,7 @@ Proof.
   - specialize (IH H). lia.
 Qed.
 
-(* ============================================================================================ machine steps (FixA) *)
+(* ============================================================================================ machine steps (Cur) *)
 Section Machine.
 Variable w : world.
 Variable U : list nat.
@@ -440,7 +440,7 @@ Qed.
 
 (* one step of the machine from a state satisfying the invariant *)
 Lemma cm_step_inv a stk e m' :
-  Inv w a U stk -> cm_step FixA (mkcm a stk e) = inl m' ->
+  Inv w a U stk -> cm_step Cur (mkcm a stk e) = inl m' ->
   Inv w (cm_a m') U (cm_stk m') /\ (e = 0 -> cm_err m' = 0).
 Proof.
   intros H St. unfold cm_step in St. simpl in St. destruct stk as [|[i|i k] rest]; [discriminate| |].
@@ -458,10 +458,10 @@ Proof.
 Qed.
 
 Lemma cm_run_inv fuel : forall a stk a' e',
-  Inv w a U stk -> loopN (cm_step FixA) fuel (mkcm a stk 0) = inr (a', e') -> e' = 0 /\ Inv w a' U [].
+  Inv w a U stk -> loopN (cm_step Cur) fuel (mkcm a stk 0) = inr (a', e') -> e' = 0 /\ Inv w a' U [].
 Proof.
   induction fuel as [|fuel IH]; intros a stk a' e' H Run; [discriminate|].
-  simpl in Run. destruct (cm_step FixA (mkcm a stk 0)) as [m'|r] eqn:St.
+  simpl in Run. destruct (cm_step Cur (mkcm a stk 0)) as [m'|r] eqn:St.
   - destruct (cm_step_inv _ _ _ _ H St) as [Hi He]. destruct m' as [a1 stk1 e1]. simpl in *.
     rewrite (He eq_refl) in Run. eapply IH; eauto.
   - inversion Run; subst. unfold cm_step in St. simpl in St. destruct stk as [|[i|i k] rest].
@@ -472,7 +472,7 @@ Qed.
 
 (* ADFI_close_file drops exactly the caller's reference and reports NO_ERROR *)
 Lemma close_machine_ok fuel a i a' e :
-  Inv w a (i :: U) [] -> adfi_close_file FixA fuel a i = Some (a', e) -> e = 0 /\ Inv w a' U [].
+  Inv w a (i :: U) [] -> adfi_close_file Cur fuel a i = Some (a', e) -> e = 0 /\ Inv w a' U [].
 Proof.
   intros H Cl. unfold adfi_close_file in Cl.
   destruct (loopN _ _ _) as [|[a1 e1]] eqn:Run; [discriminate|]. inversion Cl; subst.
@@ -485,7 +485,7 @@ Proof.
 Qed.
 End Machine.
 
-(* ============================================================================================ termination (FixA) *)
+(* ============================================================================================ termination (Cur) *)
 (* link entries not yet handed to a recursive call *)
 Definition gr (stk : list frame) (i : nat) (s : slot) : nat :=
   if Nat.eqb (in_use s) 0 then 0 else length (links s) - prog stk i.
@@ -508,7 +508,7 @@ Proof.
 Qed.
 
 Lemma cm_step_phi a stk e m' :
-  Inv w a U stk -> cm_step FixA (mkcm a stk e) = inl m' -> phi (cm_a m') (cm_stk m') < phi a stk.
+  Inv w a U stk -> cm_step Cur (mkcm a stk e) = inl m' -> phi (cm_a m') (cm_stk m') < phi a stk.
 Proof.
   intros H St. pose proof (cm_step_inv w U _ _ _ _ H St) as [Hi' _].
   unfold cm_step in St. simpl in St. destruct stk as [|[i|i k] rest]; [discriminate| |].
@@ -562,13 +562,13 @@ Proof.
 Qed.
 
 Lemma cm_run_terminates fuel : forall a stk,
-  Inv w a U stk -> phi a stk < fuel -> exists a', loopN (cm_step FixA) fuel (mkcm a stk 0) = inr (a', 0) /\ Inv w a' U [].
+  Inv w a U stk -> phi a stk < fuel -> exists a', loopN (cm_step Cur) fuel (mkcm a stk 0) = inr (a', 0) /\ Inv w a' U [].
 Proof.
   induction fuel as [|fuel IH]; intros a stk H Hp; [lia|].
-  simpl. destruct (cm_step FixA (mkcm a stk 0)) as [m'|[a1 e1]] eqn:St.
+  simpl. destruct (cm_step Cur (mkcm a stk 0)) as [m'|[a1 e1]] eqn:St.
   - destruct (cm_step_inv w U _ _ _ _ H St) as [Hi He]. pose proof (cm_step_phi _ _ _ _ H St) as Hd.
     destruct m' as [a1 stk1 e1]. simpl in *. rewrite (He eq_refl). apply IH; auto. lia.
-  - assert (R : loopN (cm_step FixA) (S fuel) (mkcm a stk 0) = inr (a1, e1)) by (simpl; rewrite St; reflexivity).
+  - assert (R : loopN (cm_step Cur) (S fuel) (mkcm a stk 0) = inr (a1, e1)) by (simpl; rewrite St; reflexivity).
     destruct (cm_run_inv w U _ _ _ _ _ H R) as [-> Hi]. eauto.
 Qed.
 
@@ -576,7 +576,7 @@ Qed.
    files in use) + 3 steps, drops exactly the caller's reference and reports NO_ERROR *)
 Lemma close_machine_total fuel a i :
   Inv w a (i :: U) [] -> 3 * tlinks a + 3 <= fuel ->
-  exists a', adfi_close_file FixA fuel a i = Some (a', 0) /\ Inv w a' U [].
+  exists a', adfi_close_file Cur fuel a i = Some (a', 0) /\ Inv w a' U [].
 Proof.
   intros H Hf.
   assert (H1 : Inv w a U [FEnter i]).
@@ -872,7 +872,7 @@ Qed.
 
 (* ADF_Database_Open from a state satisfying the invariant *)
 Lemma adf_open_inv w a U fuel n rw a1 r :
-  Inv w a U [] -> adf_database_open FixA fuel w a n rw = Some (a1, r) ->
+  Inv w a U [] -> adf_database_open Cur fuel w a n rw = Some (a1, r) ->
   match r with
   | Some i => Inv w a1 (i :: U) [] /\ in_use (slot_at a i) = 0 /\ slot_at a1 i = mkslot 1 true (Some n) [] /\
               (forall j, j <> i -> slot_at a1 j = slot_at a j)
@@ -885,7 +885,7 @@ Proof.
          match oi with
          | None => Some (a1', None)
          | Some i => if header_ok k then Some (a1', Some i)
-                     else match adfi_close_file FixA fuel a1' i with
+                     else match adfi_close_file Cur fuel a1' i with
                           | None => None
                           | Some (a2, _) => Some (a2, None)
                           end
@@ -900,7 +900,7 @@ Proof.
     - destruct Sp as (Z & Li & E1 & E2 & El). pose proof (open_inv _ _ _ _ _ _ H Z E1 E2 El) as Hi.
       destruct (header_ok k).
       + intros Q. inversion Q; subst. auto.
-      + destruct (adfi_close_file FixA fuel a1' i) as [[a2 e]|] eqn:Cl; [|discriminate].
+      + destruct (adfi_close_file Cur fuel a1' i) as [[a2 e]|] eqn:Cl; [|discriminate].
         intros Q. inversion Q; subst. eapply close_machine_ok; eauto.
     - intros Q. inversion Q; subst. destruct Sp as [S2 S1]. specialize (S1 (inv_W _ _ _ _ H)).
       apply (Inv_same w a); auto. }
@@ -911,7 +911,7 @@ Lemma Inv_set_cache w a U stk c : Inv w a U stk -> Inv w (set_cache a c) U stk.
 Proof. intros H. apply (Inv_same w a); auto. Qed.
 
 Lemma chase_inv w a U fuel cur n a' r :
-  Inv w a U [] -> chase FixA fuel w a cur n = Some (a', r) -> Inv w a' U [].
+  Inv w a U [] -> chase Cur fuel w a cur n = Some (a', r) -> Inv w a' U [].
 Proof.
   intros H. unfold chase.
   destruct ((length (tab a) <=? cur) || Nat.eqb (in_use (slot_at a cur)) 0) eqn:Bad; [intros Q; inversion Q; subst; exact H|].
@@ -925,7 +925,7 @@ Proof.
   { destruct ((length (tab a) <=? hli) || Nat.eqb (in_use (slot_at a hli)) 0); intros Q; inversion Q; subst; exact H. }
   assert (G : match find_name (tab a) n with
         | Some li => Some (set_cache (link_add a cur li true) (Some (cur, n, li)), Some li)
-        | None => match adf_database_open FixA fuel w a n true with
+        | None => match adf_database_open Cur fuel w a n true with
                   | None => None
                   | Some (a1, None) => Some (a1, None)
                   | Some (a1, Some li) => Some (set_cache (link_add a1 cur li false) (Some (cur, n, li)), Some li)
@@ -934,7 +934,7 @@ Proof.
   { destruct (find_name (tab a) n) as [li|] eqn:Fn.
     - intros Q. inversion Q; subst. destruct (find_name_spec _ _ _ Fn) as (A & B & C).
       apply Inv_set_cache. eapply link_add_found_inv; eauto.
-    - destruct (adf_database_open FixA fuel w a n true) as [[a1 [li|]]|] eqn:Op; [| |discriminate].
+    - destruct (adf_database_open Cur fuel w a n true) as [[a1 [li|]]|] eqn:Op; [| |discriminate].
       + intros Q. inversion Q; subst. destruct (adf_open_inv _ _ _ _ _ _ _ _ H Op) as (Hi & Z & E1 & E2).
         assert (cur <> li) by (intros ->; congruence).
         apply Inv_set_cache. eapply (link_add_new_inv w a1 U cur li nm n); eauto.
@@ -947,11 +947,11 @@ Proof.
 Qed.
 
 Lemma walk_inv w U fuel chain : forall a cur a' ok,
-  Inv w a U [] -> walk FixA fuel w a cur chain = Some (a', ok) -> Inv w a' U [].
+  Inv w a U [] -> walk Cur fuel w a cur chain = Some (a', ok) -> Inv w a' U [].
 Proof.
   induction chain as [|n r IH]; intros a cur a' ok H; simpl.
   - intros Q. inversion Q; subst. exact H.
-  - destruct (chase FixA fuel w a cur n) as [[a1 [li|]]|] eqn:Ch; [| |discriminate].
+  - destruct (chase Cur fuel w a cur n) as [[a1 [li|]]|] eqn:Ch; [| |discriminate].
     + intros Q. eapply IH; [|exact Q]. eapply chase_inv; eauto.
     + intros Q. inversion Q; subst. eapply chase_inv; eauto.
 Qed.
@@ -1062,12 +1062,12 @@ Record IOInv (w : world) (s : io) (pend : list nat) : Prop := mkIOInv {
 }.
 
 Lemma step_inv w fuel s pend o s' r :
-  IOInv w s pend -> step FixA fuel w s o = Some (s', r) -> IOInv w s' (track pend o r).
+  IOInv w s pend -> step Cur fuel w s o = Some (s', r) -> IOInv w s' (track pend o r).
 Proof.
   intros [I C Z P]. destruct o as [n rw|c ch|c]; simpl.
   - (* open *)
     unfold cgio_open_file.
-    assert (G : match adf_database_open FixA fuel w (io_adf s) n rw with
+    assert (G : match adf_database_open Cur fuel w (io_adf s) n rw with
          | None => None
          | Some (a1, None) => Some (mkio a1 (iol s) (nopen s), None)
          | Some (a1, Some idx) =>
@@ -1077,7 +1077,7 @@ Proof.
              Some (mkio a1 (upd l1 k (Some idx)) (S (nopen s)), Some (S k))
          end = Some (s', match r with ResOpen c => c | _ => None end) -> (exists c, r = ResOpen c) ->
          IOInv w s' (track pend (OOpen n rw) r)).
-    { destruct (adf_database_open FixA fuel w (io_adf s) n rw) as [[a1 [idx|]]|] eqn:Op; [| |discriminate].
+    { destruct (adf_database_open Cur fuel w (io_adf s) n rw) as [[a1 [idx|]]|] eqn:Op; [| |discriminate].
       - destruct (adf_open_inv _ _ _ _ _ _ _ _ I Op) as (Hi & _).
         set (l0 := match iol s with [] => repeat None 5 | l => l end).
         assert (H0 : handles l0 = handles (iol s)).
@@ -1106,13 +1106,13 @@ Proof.
       - intros Q (c & ->). inversion Q; subst. simpl. constructor; simpl; auto.
         exact (adf_open_inv _ _ _ _ _ _ _ _ I Op). }
     destruct (kind_of w n);
-      try (destruct (adf_database_open FixA fuel w (io_adf s) n rw) as [[a1 [idx|]]|] eqn:Op; [| |discriminate];
+      try (destruct (adf_database_open Cur fuel w (io_adf s) n rw) as [[a1 [idx|]]|] eqn:Op; [| |discriminate];
            intros Q; inversion Q; subst; apply G; eauto; rewrite Op; reflexivity);
       intros Q; inversion Q; subst; simpl; constructor; auto.
   - (* walk *)
     unfold cgio_walk. destruct c as [|c1]; [intros Q; inversion Q; subst; simpl; constructor; auto|].
     destruct (nth c1 (iol s) None) as [idx|]; [|intros Q; inversion Q; subst; simpl; constructor; auto].
-    destruct (walk FixA fuel w (io_adf s) idx ch) as [[a1 ok]|] eqn:Wk; [|discriminate].
+    destruct (walk Cur fuel w (io_adf s) idx ch) as [[a1 ok]|] eqn:Wk; [|discriminate].
     intros Q. inversion Q; subst. simpl. constructor; simpl; auto. eapply walk_inv; eauto.
   - (* close *)
     unfold cgio_close_file.
@@ -1128,7 +1128,7 @@ Proof.
     2:{ intros Q. inversion Q; subst. simpl. constructor; auto. intros c1' idx Hn. apply Keep; eauto. congruence. }
     pose proof (handle_in_use _ _ _ _ _ I Hc) as Hu. pose proof (in_use_lt _ _ Hu) as Hlt.
     destruct (Nat.leb_spec (length (tab (io_adf s))) idx); [lia|].
-    destruct (adfi_close_file FixA fuel (io_adf s) idx) as [[a1 e]|] eqn:Cl; [|discriminate].
+    destruct (adfi_close_file Cur fuel (io_adf s) idx) as [[a1 e]|] eqn:Cl; [|discriminate].
     destruct (handles_upd_none _ _ _ Hc) as [A B].
     assert (I' : Inv w (io_adf s) (idx :: handles (upd (iol s) c1 None)) []).
     { apply (Inv_U w _ (handles (iol s))); auto. }
@@ -1144,12 +1144,12 @@ Proof.
 Qed.
 
 Lemma run_inv w fuel ops : forall s pend s' pend' rs,
-  IOInv w s pend -> run FixA fuel w s pend ops = Some (s', pend', rs) -> IOInv w s' pend'.
+  IOInv w s pend -> run Cur fuel w s pend ops = Some (s', pend', rs) -> IOInv w s' pend'.
 Proof.
   induction ops as [|o r IH]; intros s pend s' pend' rs H; simpl.
   - intros Q. inversion Q; subst. exact H.
-  - destruct (step FixA fuel w s o) as [[s1 x]|] eqn:St; [|discriminate].
-    destruct (run FixA fuel w s1 (track pend o x) r) as [[[s2 p2] xs]|] eqn:Rn; [|discriminate].
+  - destruct (step Cur fuel w s o) as [[s1 x]|] eqn:St; [|discriminate].
+    destruct (run Cur fuel w s1 (track pend o x) r) as [[[s2 p2] xs]|] eqn:Rn; [|discriminate].
     intros Q. inversion Q; subst. eapply IH; [|exact Rn]. eapply step_inv; eauto.
 Qed.
 
@@ -1170,7 +1170,7 @@ Proof. constructor; simpl; auto. apply Inv_init. intros c1 idx. destruct c1; dis
 
 (* The positive theorem for the repaired ADFI_close_file *)
 Theorem balanced_fixed : forall w rank fuel ops s rs,
-  acyclic w rank -> run FixA fuel w io_init [] ops = Some (s, [], rs) -> clean s.
+  acyclic w rank -> run Cur fuel w io_init [] ops = Some (s, [], rs) -> clean s.
 Proof.
   intros w rank fuel ops s rs Hac Rn.
   pose proof (run_inv _ _ _ _ _ _ _ _ (IOInv_init w) Rn) as [I C Z P].
@@ -1229,7 +1229,7 @@ Ltac run_concrete :=
   end.
 
 Lemma refuted_shared_link :
-  exists s rs, run Faithful 1000 w1 io_init [] ops1 = Some (s, [], rs) /\
+  exists s rs, run Old 1000 w1 io_init [] ops1 = Some (s, [], rs) /\
                nth 5 rs (ResWalk false) = ResClose ROk /\
                nth 6 rs (ResWalk false) = ResClose (RAdf ADF_FILE_NOT_OPENED) /\
                nopen s = 1 /\ iol s <> [] /\ ~ clean s.
@@ -1240,7 +1240,7 @@ Qed.
 
 (* the moment of the premature close: A (slot 0) is in use and lists slot 2 in links[], slot 2 (B) is closed *)
 Lemma refuted_premature_close :
-  exists s rs, run Faithful 1000 w1 io_init [] [OOpen 0 false; OOpen 2 false; OWalk 2 [0; 1]; OClose 2] = Some (s, [1], rs) /\
+  exists s rs, run Old 1000 w1 io_init [] [OOpen 0 false; OOpen 2 false; OWalk 2 [0; 1]; OClose 2] = Some (s, [1], rs) /\
                in_use (slot_at (io_adf s) 0) = 1 /\ links (slot_at (io_adf s) 0) = [2] /\
                in_use (slot_at (io_adf s) 2) = 0 /\ ledger (io_adf s) = [0].
 Proof. run_concrete. repeat split; reflexivity. Qed.
@@ -1257,34 +1257,34 @@ Definition top_ok (stk : list frame) : Prop :=
   | _ => False
   end.
 
-Lemma cycle_diverges fuel : forall stk e, top_ok stk -> exists m, loopN (cm_step Faithful) fuel (mkcm a2 stk e) = inl m.
+Lemma cycle_diverges fuel : forall stk e, top_ok stk -> exists m, loopN (cm_step Old) fuel (mkcm a2 stk e) = inl m.
 Proof.
   induction fuel as [|fuel IH]; intros stk e H; [eexists; reflexivity|].
   destruct stk as [|[[|[|i]]|[|[|i]] [|k]] rest]; simpl in H; try contradiction; simpl; unfold cm_step; simpl; apply IH; exact I.
 Qed.
 
-Lemma refuted_cycle : forall fuel, run Faithful fuel w2 io_init [] ops2 = None.
+Lemma refuted_cycle : forall fuel, run Old fuel w2 io_init [] ops2 = None.
 Proof.
   intros fuel. unfold ops2.
   set (s1 := mkio (mkadf [mkslot 1 true (Some 0) []; free_slot; free_slot; free_slot; free_slot] [0] None)
                   [Some 0; None; None; None; None] 1).
   set (s2 := mkio a2 [Some 0; None; None; None; None] 1).
-  assert (S1 : step Faithful fuel w2 io_init (OOpen 0 false) = Some (s1, ResOpen (Some 1))) by reflexivity.
-  assert (S2 : step Faithful fuel w2 s1 (OWalk 1 [1; 0]) = Some (s2, ResWalk true)) by reflexivity.
-  assert (S3 : step Faithful fuel w2 s2 (OClose 1) = None).
+  assert (S1 : step Old fuel w2 io_init (OOpen 0 false) = Some (s1, ResOpen (Some 1))) by reflexivity.
+  assert (S2 : step Old fuel w2 s1 (OWalk 1 [1; 0]) = Some (s2, ResWalk true)) by reflexivity.
+  assert (S3 : step Old fuel w2 s2 (OClose 1) = None).
   { unfold step, cgio_close_file, s2. cbn [iol io_adf length nth Nat.leb tab a2]. unfold adfi_close_file.
     destruct (cycle_diverges fuel [FEnter 0] 0 I) as [m ->]. reflexivity. }
   cbn [run]. rewrite S1. cbn [run]. rewrite S2. cbn [run]. rewrite S3. reflexivity.
 Qed.
 
-(* the repair FixA terminates on W2 but the two files then keep each other open: a reference-count cycle *)
+(* the repair Cur terminates on W2 but the two files then keep each other open: a reference-count cycle *)
 Lemma fixA_cycle_leaks :
-  exists s rs, run FixA 1000 w2 io_init [] ops2 = Some (s, [], rs) /\ ledger (io_adf s) = [1; 0] /\
+  exists s rs, run Cur 1000 w2 io_init [] ops2 = Some (s, [], rs) /\ ledger (io_adf s) = [1; 0] /\
                in_use (slot_at (io_adf s) 0) = 1 /\ in_use (slot_at (io_adf s) 1) = 1 /\ iol s = [].
 Proof. run_concrete. repeat split; reflexivity. Qed.
 
-(* and FixA on W1: every close succeeds and nothing is left *)
-Lemma fixA_w1_clean : exists s rs, run FixA 1000 w1 io_init [] ops1 = Some (s, [], rs) /\ cleanb s = true /\
+(* and Cur on W1: every close succeeds and nothing is left *)
+Lemma fixA_w1_clean : exists s rs, run Cur 1000 w1 io_init [] ops1 = Some (s, [], rs) /\ cleanb s = true /\
   forallb (fun r => match r with ResClose ROk | ResOpen (Some _) | ResWalk true => true | _ => false end) rs = true.
 Proof. run_concrete. split; reflexivity. Qed.
 
@@ -1340,7 +1340,7 @@ Proof.
 Qed.
 
 Lemma mstep_inv m pend o : MInv m pend ->
-  let '(m1, p1, _) := mstep MFixed m pend o in MInv m1 p1.
+  let '(m1, p1, _) := mstep MCur m pend o in MInv m1 p1.
 Proof.
   intros HI. pose proof HI as [C Z H P]. destruct o as [oc|fn ok]; simpl.
   - (* cg_open *)
@@ -1386,13 +1386,13 @@ Proof.
       * apply Same. intros i h Hn Heq. destruct (NoLive i h Hn Heq). congruence.
 Qed.
 
-Lemma mrun_inv ops : forall m pend, MInv m pend -> let '(m1, p1) := mrun MFixed m pend ops in MInv m1 p1.
+Lemma mrun_inv ops : forall m pend, MInv m pend -> let '(m1, p1) := mrun MCur m pend ops in MInv m1 p1.
 Proof.
   induction ops as [|o r IH]; intros m pend H; simpl; auto.
-  pose proof (mstep_inv m pend o H) as S1. destruct (mstep MFixed m pend o) as [[m1 p1] x]. apply IH. exact S1.
+  pose proof (mstep_inv m pend o H) as S1. destruct (mstep MCur m pend o) as [[m1 p1] x]. apply IH. exact S1.
 Qed.
 
-Theorem mll_released_fixed : forall ops m, mrun MFixed mll_init [] ops = (m, []) -> mclean m.
+Theorem mll_released_fixed : forall ops m, mrun MCur mll_init [] ops = (m, []) -> mclean m.
 Proof.
   intros ops m Rn.
   assert (I0 : MInv mll_init []).
@@ -1406,25 +1406,25 @@ Qed.
 
 (* the code as it is: one cg_open that fails after cgio_open_file succeeded; the user holds nothing, the library does *)
 Lemma mll_refuted_failed_open :
-  exists m, mrun MFaithful mll_init [] [MOpen OLateFail] = (m, []) /\ n_open m = 1 /\ held m = [0] /\ files m = [Some 0].
+  exists m, mrun MOld mll_init [] [MOpen OLateFail] = (m, []) /\ n_open m = 1 /\ held m = [0] /\ files m = [Some 0].
 Proof. eexists. repeat split; reflexivity. Qed.
 
 Lemma mll_fixed_failed_open :
-  exists m, mrun MFixed mll_init [] [MOpen OLateFail] = (m, []) /\ n_open m = 0 /\ held m = [] /\ files m = [].
+  exists m, mrun MCur mll_init [] [MOpen OLateFail] = (m, []) /\ n_open m = 0 /\ held m = [] /\ files m = [].
 Proof. eexists. repeat split; reflexivity. Qed.
 
 (* ============================================================================================ the full statements *)
-Lemma refcount_balanced_refuted : ~ refcount_balanced Faithful.
+Lemma refcount_balanced_refuted : ~ refcount_balanced Old.
 Proof.
   intros H. destruct refuted_shared_link as (s & rs & Rn & _ & _ & _ & _ & Nc). exact (Nc (H _ _ _ _ _ Rn)).
 Qed.
 
-Lemma handles_released_refuted : ~ handles_released MFaithful.
+Lemma handles_released_refuted : ~ handles_released MOld.
 Proof.
   intros H. destruct mll_refuted_failed_open as (m & Rn & N1 & _). destruct (H _ _ Rn) as (N0 & _). congruence.
 Qed.
 
-Lemma handles_released_fixed : handles_released MFixed.
+Lemma handles_released_fixed : handles_released MCur.
 Proof. exact mll_released_fixed. Qed.
 
 Lemma w1_acyclic : acyclic w1 (fun n => match n with 2 => 2 | 0 => 1 | _ => 0 end).
@@ -1434,16 +1434,16 @@ Proof.
 Qed.
 
 Lemma invariant_example :
-  exists s rs, run FixA 1000 w1 io_init [] [OOpen 0 false; OOpen 2 false; OWalk 2 [0; 1]] = Some (s, [2; 1], rs) /\
+  exists s rs, run Cur 1000 w1 io_init [] [OOpen 0 false; OOpen 2 false; OWalk 2 [0; 1]] = Some (s, [2; 1], rs) /\
                IOInv w1 s [2; 1] /\ in_use (slot_at (io_adf s) 0) = 2 /\ ledger (io_adf s) = [1; 2; 0].
 Proof.
-  destruct (run FixA 1000 w1 io_init [] [OOpen 0 false; OOpen 2 false; OWalk 2 [0; 1]]) as [[[s p] rs]|] eqn:E;
+  destruct (run Cur 1000 w1 io_init [] [OOpen 0 false; OOpen 2 false; OWalk 2 [0; 1]]) as [[[s p] rs]|] eqn:E;
     [|vm_compute in E; discriminate].
   pose proof (run_inv _ _ _ _ _ _ _ _ (IOInv_init w1) E) as I.
   vm_compute in E. inversion E; subst. eexists. eexists. split; [reflexivity|]. split; [exact I|]. split; reflexivity.
 Qed.
 
 Lemma mll_fixed_example :
-  exists m, mrun MFixed mll_init [] [MOpen OSuccess; MOpen OLateFail; MOpen OSuccess; MClose 1 true; MClose 3 true] = (m, []) /\
+  exists m, mrun MCur mll_init [] [MOpen OSuccess; MOpen OLateFail; MOpen OSuccess; MClose 1 true; MClose 3 true] = (m, []) /\
             n_open m = 0 /\ held m = [] /\ files m = [] /\ foffset m = 3.
 Proof. eexists. repeat split; reflexivity. Qed.
